@@ -877,6 +877,9 @@ func runC11(c *Ctx) {
 		return
 	}
 	runOSCacheLayer(c)
+	runC11RealClock(c)
+	runC11OSWriteOnly(c)
+	c.Extra["refresh_sweep"] = fmt.Sprintf("%d cases: a write handle from Create / OpenFile kept open, a first write, the two copies age (5 ways), one call through the cache that names the file (9: Open, OpenFile x4, Chmod, Chtimes, Rename, Stat), further writes through the first handle, reads", c11RefreshSweep(c))
 	// small scope, exhaustive: "hello world" cached coherently, one O_RDWR handle through the cache, every
 	// sequence of 2 (quick) / 3 (thorough) handle methods from a menu of 14
 	depth := 2
@@ -1016,6 +1019,18 @@ func runC11(c *Ctx) {
 		items := genC11(r)
 		c11Case(c, fmt.Sprintf("r%d", i), stack, items)
 		if i < 2 {
+			c.Sample("case " + stack + ": " + strings.Join(items, " ; "))
+		}
+	}
+	// handles kept open while copies age and are refreshed (c11refresh.go); 3 of 4 with a positive duration
+	for i := 0; i < n/2; i++ {
+		stack := cacheStacks[1]
+		if i%4 == 3 {
+			stack = cacheStacks[0]
+		}
+		items := genC11Refresh(c.Rng.Fork())
+		c11Case(c, fmt.Sprintf("rr%d", i), stack, items)
+		if i < 1 {
 			c.Sample("case " + stack + ": " + strings.Join(items, " ; "))
 		}
 	}
